@@ -1,5 +1,7 @@
 PROP = dict(
-    gens=[dict(tool="gensites", out="GenSites.v", args=["{repo}"])],
+    gens=[dict(tool="gensites", out="GenSites.v", args=["{repo}"]),
+          # the size-class function the model uses is the one in the source (same obligation as C20)
+          dict(tool="genintfun", out="GenIntFunPool.v", args=["{repo}/pkg/pool/byteslice/byteslice.go:index:bs_index"])],
     drivers=[dict(cmd="drv-pool", family="pool", env={"GNET_LOGGING_LEVEL": "5"},
                   timeout={"quick": 600, "thorough": 3000})],
     rule="a case is one history: (a) 20-120 interleaved Get/Put/make/re-slice/write/GC ops by 1-8 goroutines over a private "
@@ -11,7 +13,8 @@ PROP = dict(
          "link-local %zone connections: accepted, dialled, enrolled, udp) followed by a probe of the built-in pools. "
          "Non-trivial = reaches a tagged class (pooled-reuse, odd-cap, tail, cap-cut, foreign, gc, multi-goroutine, huge, "
          "rb-reuse, rb-dropped, storm, engine-*); distinct by hash of the op lines",
-    trusted=["translator harness/cmd/gensites (go/ast: every selector on an import of pkg/pool/byteslice or pkg/pool/ringbuffer "
+    trusted=["translator harness/cmd/genintfun (byteslice.index -> Gallina, obligation gen_index = Arith.bs_index)",
+             "translator harness/cmd/gensites (go/ast: every selector on an import of pkg/pool/byteslice or pkg/pool/ringbuffer "
              "in the non-test sources that build on linux/darwin/freebsd)",
              "the per-site justification in coq/Model/Pool.v site_table is a manual analysis of each call site"],
     assumptions=["sync.Pool is a bag: Get returns a pointer that was Put and not yet returned, or nil; a GC may drop any entry; "
